@@ -65,14 +65,20 @@ SITES = [{"kind": "named", "name": n} for n in NAMED] + \
 PAIR_SITES = [
     ("Na", "Nb"), ("Nb", "Na"), ("Na", "H1.p"), ("Nc", "H1.p"), ("Na", "H1.r"), ("H1.p", "H1.q"), ("H1.q", "H1.p"), ("H1.p", "H2.p"),
     ("H2.q", "H1.p"), ("H1.p", "H1.r"), ("H1.r", "H2.p"), ("H1.r", "H1.s"), ("H1.r", "H2.s"),
+    # an array member whose singular is the name of a sibling member: the item type and the sibling's type want one name
+    ("H1.entries", "H1.entry"), ("H1.entry", "H1.entries"), ("H1.entries", "H2.entry"),
 ]
+ITEM_PROPS = ("r", "s", "entries")
+SINGULAR = {"r": "r", "s": "s", "entries": "entry"}
 
 
 def site_of(tag):
     if "." not in tag:
         return {"kind": "named", "name": tag}
     h, p = tag.split(".")
-    return {"kind": "items" if p in ("r", "s") else "prop", "holder": h, "prop": p}
+    if p in ITEM_PROPS:
+        return {"kind": "items", "holder": h, "prop": p, "single": SINGULAR[p]}   # item type name = holder + Pascal(cruet::to_singular(member))
+    return {"kind": "prop", "holder": h, "prop": p}
 
 
 def disc_mix(schemas):
@@ -132,7 +138,7 @@ def share_cases(ctx):
     extras = [c for c in extras if not disc_mix([o["schema"] for o in c["in"]["occs"]] + [c["in"]["extra"]["schema"]])]
     out += r.sample(extras, 300) if ctx.quick else extras
     # triples (and a few cross-family mixes) at random site combinations, some with an extra schema
-    tags = ["Na", "Nb", "Nc", "H1.p", "H1.q", "H1.r", "H1.s", "H2.p", "H2.q", "H2.r", "H2.s"]
+    tags = ["Na", "Nb", "Nc", "H1.p", "H1.q", "H1.r", "H1.s", "H2.p", "H2.q", "H2.r", "H2.s", "H1.entries", "H1.entry", "H2.entry"]
     for _ in range(250 if ctx.quick else 3000):
         fam = FAMILIES[r.choice(list(FAMILIES))]
         k = r.choice([3, 3, 3, 4])
